@@ -443,7 +443,7 @@ func checkC09(c *hx.Checker) {
 		}
 	}
 	// larger shapes beyond the exhaustive box
-	for _, sh := range [][]int{{4, 5, 6}, {2, 17}, {9, 1, 8}} {
+	for _, sh := range [][]int{{4, 5, 6}, {2, 17}, {9, 1, 8}, {37, 111}, {4099}, {3, 1367}, {5, 13, 1009}} {
 		x := ref.Fill(ref.F32, sh, func(i int) float64 { return float64((i*37+11)%101)/10 - 5 })
 		for ax := 0; ax < len(sh); ax++ {
 			for _, kd := range []int{0, 1} {
